@@ -322,7 +322,10 @@ func FilterPMTPacketsToPids(packets []*packet.Packet, pids []int) ([]*packet.Pac
 	pmtPayload := pmtByteBuffer.Bytes()
 
 	// Determine if any of the given PIDs aren't in the PMT.
-	unfilteredPMT, _ := NewPMT(pmtPayload)
+	unfilteredPMT, err := NewPMT(pmtPayload)
+	if err != nil {
+		return nil, err
+	}
 
 	pmtPid := packet.Pid(packets[0])
 	var missingPids []int
@@ -345,7 +348,17 @@ func FilterPMTPacketsToPids(packets []*packet.Packet, pids []int) ([]*packet.Pac
 	}
 
 	// include +1 to account for the PointerField field itself
-	pointerField := PointerField(pmtPayload) + 1
+	pointerField := int(PointerField(pmtPayload)) + 1
+
+	// The first section must be complete and large enough to be a PMT
+	// (fixed fields up to program_info_length, and the CRC).
+	if len(pmtPayload) < pointerField+programInfoLengthOffset+2 {
+		return nil, gots.ErrPMTParse
+	}
+	crcStart := int(PSIHeaderLen) + int(sectionLength(pmtPayload[pointerField:])) - 1 - int(CrcLen)
+	if crcStart < programInfoLengthOffset+2 || len(pmtPayload) < pointerField+crcStart+int(CrcLen) {
+		return nil, gots.ErrPMTParse
+	}
 
 	var filteredPMT bytes.Buffer
 
@@ -355,18 +368,21 @@ func FilterPMTPacketsToPids(packets []*packet.Packet, pids []int) ([]*packet.Pac
 	// Copy the first 12 bytes of the PMT packet. Only section_length will change.
 	filteredPMT.Write(pmtPayload[:programInfoLengthOffset+2])
 
-	// Get the section length
-	sectionLength := sectionLength(pmtPayload)
-
 	// Get program info length
 	programInfoLength := uint16(pmtPayload[programInfoLengthOffset]&0x0f)<<8 | uint16(pmtPayload[programInfoLengthOffset+1])
+	if programInfoLengthOffset+2+int(programInfoLength) > crcStart {
+		return nil, gots.ErrPMTParse
+	}
 	if programInfoLength != 0 {
 		filteredPMT.Write(pmtPayload[programInfoLengthOffset+2 : programInfoLengthOffset+2+programInfoLength])
 	}
 
-	for offset := programInfoLengthOffset + 2 + programInfoLength; offset < PSIHeaderLen+sectionLength-pmtEsDescriptorStaticLen-CrcLen; {
+	for offset := programInfoLengthOffset + 2 + programInfoLength; int(offset)+int(pmtEsDescriptorStaticLen) <= crcStart; {
 		elementaryPid := int(pmtPayload[offset+1]&0x1f)<<8 | int(pmtPayload[offset+2])
 		infoLength := uint16(pmtPayload[offset+3]&0x0f)<<8 | uint16(pmtPayload[offset+4])
+		if int(offset)+int(pmtEsDescriptorStaticLen)+int(infoLength) > crcStart {
+			return nil, gots.ErrPMTParse
+		}
 
 		// This is an ES PID we want to keep
 		if pidIn(pids, elementaryPid) {
